@@ -89,9 +89,9 @@ CHECKS = {
         "assumptions": ["the currying construction is modelled as a pure function (Model/Apply.v); the flat_map/map plumbing underneath is C13's"],
     },
     "C17": {
-        "modules": ["p_c17"],
+        "modules": ["p_c17", "p_c17m"],
         "gen_lemmas": ["proxy_table (33 entries) all in transparent form", "NoCancelFuture.cancel = False"],
-        "rule": "seeded cases: 15 binary and 19 unary/builtin/attribute operations x 19 result values of builtin types x 14 operands x "
+        "rule": "p_c17m: the MapFuture protocol underneath ProxyFuture / NoCancelFuture in lockstep with Model/MapFut.v (family of C02/C13); p_c17 also stacks wrappers on a future while another thread resolves it, timeouts 0 / 0.0, inputs already resolved / failed / cancelled at wrap time; seeded cases: 15 binary and 19 unary/builtin/attribute operations x 19 result values of builtin types x 14 operands x "
                 "future state {resolved, failed, pending then resolved from another thread}; non-forwarded operations (bool, repr, str, ==, "
                 "hash, unknown dunder) on a pending future; timeout on a never-resolved future (virtual time); f_nocancel shielding; "
                 "monitor: same value and type, or same exception type, as the operation on the plain value; a blocked operation is a deadlock",
